@@ -453,7 +453,13 @@ impl<W: Write + io::Seek> ZipWriter<W> {
             file.uncompressed_size = self.stats.bytes_written;
 
             let file_end = writer.stream_position()?;
-            file.compressed_size = file_end - self.stats.start;
+            // After a failed seek the writer may sit before the start of this entry's data.
+            file.compressed_size = file_end.checked_sub(self.stats.start).ok_or_else(|| {
+                io::Error::new(
+                    io::ErrorKind::Other,
+                    "Writer position is before the start of the current entry",
+                )
+            })?;
 
             update_local_file_header(writer, file)?;
             writer.seek(io::SeekFrom::Start(file_end))?;
